@@ -244,6 +244,14 @@ pub fn define_operand(name: &str, o: &Opnd, mutable: bool) -> Vec<String> {
       out.extend(define_scalar(&en, s, false));
       names.push(Sc::Str(en));
     }
+    if kind.starts_with('i') && o.rows > 1 {
+      // vertical concatenation of i128 rows is not implemented at this commit: go through a row
+      // vector (column-major element order) and a reshape annotation
+      let flat: Vec<String> = names.iter().map(|s| match s { Sc::Str(n) => n.clone(), _ => unreachable!() }).collect();
+      out.push(format!("{}flat := [{}]", name, flat.join(" ")));
+      out.push(format!("{}{}<[{}]:{},{}> := {}flat", tilde, name, kind, o.rows, o.cols, name));
+      return out;
+    }
     let text = mat_lit(o.rows, o.cols, &names, &|s| match s { Sc::Str(n) => n.clone(), _ => unreachable!() });
     out.push(format!("{}{} := {}", tilde, name, text));
     out
